@@ -256,6 +256,50 @@ static void l6(void) {
     VS_CHECK(ga.live_blocks == 0, "leak", "%llu allocation(s) still live after no-alloc logger clean-up", (unsigned long long)ga.live_blocks);
 }
 
+/* L7: the no-alloc logger on a sink whose k-th write fails (ENOSPC-style short write): that one line may be lost, every
+ * other accepted call must still deliver its line and nothing may block (added after a seeded change that returned from
+ * the error path without releasing the logger's mutex) */
+static int sink_fail_at, sink_writes;
+static char sink_buf[4096];
+static size_t sink_len;
+static ssize_t sink_write(void *c, const char *b, size_t n) {
+    (void)c;
+    if (++sink_writes == sink_fail_at) {
+        errno = ENOSPC;
+        return 0;
+    }
+    if (sink_len + n <= sizeof(sink_buf)) memcpy(sink_buf + sink_len, b, n);
+    sink_len += n;
+    return (ssize_t)n;
+}
+static void l7_run(int fail_at) {
+    setup_common();
+    sink_fail_at = fail_at;
+    sink_writes = 0;
+    sink_len = 0;
+    cookie_io_functions_t io = {.write = sink_write};
+    FILE *f = fopencookie(NULL, "w", io);
+    if (!f) vs_harness_error("fopencookie");
+    setvbuf(f, NULL, _IONBF, 0); /* every fwrite reaches the sink */
+    struct aws_logger_standard_options o = {.level = AWS_LL_INFO, .file = f};
+    if (aws_logger_init_noalloc(&nlogger, A, &o)) vs_harness_error("noalloc init");
+    aws_logger_set(&nlogger);
+    pthread_t t;
+    pthread_create(&t, NULL, noalloc_fn, (void *)(intptr_t)1);
+    noalloc_fn((void *)(intptr_t)0);
+    pthread_join(t, NULL);
+    aws_logger_set(NULL);
+    aws_logger_clean_up(&nlogger);
+    fclose(f);
+    int lines = 0;
+    for (size_t i = 0; i < sink_len && i < sizeof(sink_buf); ++i) lines += sink_buf[i] == 10;
+    VS_CHECK(sink_writes == 4, "lost-line", "4 accepted calls, the sink was written %d times (a failed write must not stop later lines)", sink_writes);
+    VS_CHECK(lines == 3, "line-count", "one of 4 writes failed: expected the other 3 lines in the sink, found %d", lines);
+    VS_CHECK(ga.live_blocks == 0, "leak", "%llu allocation(s) still live", (unsigned long long)ga.live_blocks);
+}
+static void l7a(void) { l7_run(1); }
+static void l7b(void) { l7_run(2); }
+
 static uint64_t dig(void) {
     uint64_t h = 1469598103934665603ull;
     h = (h ^ (uint64_t)nseen) * 1099511628211ull;
@@ -275,6 +319,8 @@ int main(int argc, char **argv) {
         {.name = "L4-fg-two-senders", .run = l4, .bound_quick = 2, .bound_thorough = 3, .digest = dig},
         {.name = "L5-pipeline-logf", .run = l5, .bound_quick = 2, .bound_thorough = 3, .digest = dig},
         {.name = "L6-noalloc-two-threads", .run = l6, .bound_quick = 2, .bound_thorough = 4, .digest = dig},
+        {.name = "L7-noalloc-first-write-fails", .run = l7a, .bound_quick = 1, .bound_thorough = 3, .digest = dig},
+        {.name = "L7-noalloc-second-write-fails", .run = l7b, .bound_quick = 1, .bound_thorough = 3, .digest = dig},
     };
     return vsx_main(sc, (int)(sizeof(sc) / sizeof(sc[0])));
 }
